@@ -69,7 +69,7 @@ theorem Bal.plain (d : Nat) (t : Str) (h : ∀ c ∈ t, plainC c) : Bal d t := b
   rw [scan_plain d p (fun c hc => h c (hp.subset hc))]
   exact ⟨Nat.le_refl _, rfl⟩
 
-theorem plain_nl (lvl : Nat) : ∀ c ∈ nl lvl, plainC c := by
+theorem plain_nl (ind lvl : Nat) : ∀ c ∈ nl ind lvl, plainC c := by
   intro c hc
   simp only [nl, List.mem_cons, List.mem_replicate] at hc
   rcases hc with rfl | ⟨-, rfl⟩ <;> (unfold plainC; decide)
@@ -246,20 +246,20 @@ theorem BalC.wrap (d : Nat) (o c : Char) (ho : o = '{' ∨ o = '[') (hc : c = '}
 
 -- ---------------------------------------------------------------- values
 
-theorem ser_arr_cons (lvl : Nat) (x : JV) (xs : List JV) :
-    ser lvl (.arr (x :: xs)) = '[' :: (nl (lvl + 1) ++ ser (lvl + 1) x ++ serItems (lvl + 1) xs ++ nl lvl) ++ [']'] := by
+theorem ser_arr_cons (ind lvl : Nat) (x : JV) (xs : List JV) :
+    ser ind lvl (.arr (x :: xs)) = '[' :: (nl ind (lvl + 1) ++ ser ind (lvl + 1) x ++ serItems ind (lvl + 1) xs ++ nl ind lvl) ++ [']'] := by
   simp [ser]
 
-theorem ser_obj_cons (lvl : Nat) (k : Str) (v : JV) (kvs : List (Str × JV)) :
-    ser lvl (.obj ((k, v) :: kvs)) =
-      '{' :: (nl (lvl + 1) ++ quote k ++ [':', ' '] ++ ser (lvl + 1) v ++ serMembers (lvl + 1) kvs ++ nl lvl) ++ ['}'] := by
+theorem ser_obj_cons (ind lvl : Nat) (k : Str) (v : JV) (kvs : List (Str × JV)) :
+    ser ind lvl (.obj ((k, v) :: kvs)) =
+      '{' :: (nl ind (lvl + 1) ++ quote k ++ [':', ' '] ++ ser ind (lvl + 1) v ++ serMembers ind (lvl + 1) kvs ++ nl ind lvl) ++ ['}'] := by
   simp [ser]
 
 theorem bal_sep : ∀ d, Bal d [':', ' '] := fun d => Bal.plain d _ (by intro c hc; simp at hc; rcases hc with rfl | rfl <;> (unfold plainC; decide))
 theorem bal_comma : ∀ d, Bal d [','] := fun d => Bal.plain d _ (by intro c hc; simp at hc; subst hc; unfold plainC; decide)
 
 mutual
-  theorem ser_bal (lvl d : Nat) : (v : JV) → Bal d (ser lvl v)
+  theorem ser_bal (ind lvl d : Nat) : (v : JV) → Bal d (ser ind lvl v)
     | .str s => by rw [ser]; exact Bal.quote d s
     | .int k => by rw [ser]; exact Bal.plain d _ (plain_repr k)
     | .arr [] => by
@@ -268,31 +268,31 @@ mutual
     | .arr (x :: xs) => by
       rw [ser_arr_cons]
       exact (BalC.wrap d '[' ']' (Or.inr rfl) (Or.inr rfl) _
-        (((Bal.plain _ _ (plain_nl _)).append (ser_bal (lvl + 1) (d + 1) x)).append (serItems_bal (lvl + 1) (d + 1) xs) |>.append
-          (Bal.plain _ _ (plain_nl _)))).1
+        (((Bal.plain _ _ (plain_nl _ _)).append (ser_bal ind (lvl + 1) (d + 1) x)).append (serItems_bal ind (lvl + 1) (d + 1) xs) |>.append
+          (Bal.plain _ _ (plain_nl _ _)))).1
     | .obj [] => by
       have := (BalC.wrap d '{' '}' (Or.inl rfl) (Or.inl rfl) [] (Bal.nil _)).1
       simpa [ser] using this
     | .obj ((k, v) :: kvs) => by
       rw [ser_obj_cons]
       exact (BalC.wrap d '{' '}' (Or.inl rfl) (Or.inl rfl) _
-        (((((Bal.plain _ _ (plain_nl _)).append (Bal.quote _ k)).append (bal_sep _)).append (ser_bal (lvl + 1) (d + 1) v)).append
-          (serMembers_bal (lvl + 1) (d + 1) kvs) |>.append (Bal.plain _ _ (plain_nl _)))).1
-  theorem serItems_bal (lvl d : Nat) : (l : List JV) → Bal d (serItems lvl l)
+        (((((Bal.plain _ _ (plain_nl _ _)).append (Bal.quote _ k)).append (bal_sep _)).append (ser_bal ind (lvl + 1) (d + 1) v)).append
+          (serMembers_bal ind (lvl + 1) (d + 1) kvs) |>.append (Bal.plain _ _ (plain_nl _ _)))).1
+  theorem serItems_bal (ind lvl d : Nat) : (l : List JV) → Bal d (serItems ind lvl l)
     | [] => by rw [serItems]; exact Bal.nil d
     | x :: xs => by
-      have h := (((bal_comma d).append (Bal.plain d _ (plain_nl lvl))).append (ser_bal lvl d x)).append (serItems_bal lvl d xs)
+      have h := (((bal_comma d).append (Bal.plain d _ (plain_nl ind lvl))).append (ser_bal ind lvl d x)).append (serItems_bal ind lvl d xs)
       simpa [serItems] using h
-  theorem serMembers_bal (lvl d : Nat) : (l : List (Str × JV)) → Bal d (serMembers lvl l)
+  theorem serMembers_bal (ind lvl d : Nat) : (l : List (Str × JV)) → Bal d (serMembers ind lvl l)
     | [] => by rw [serMembers]; exact Bal.nil d
     | (k, v) :: kvs => by
-      have h := (((((bal_comma d).append (Bal.plain d _ (plain_nl lvl))).append (Bal.quote d k)).append (bal_sep d)).append
-        (ser_bal lvl d v)).append (serMembers_bal lvl d kvs)
+      have h := (((((bal_comma d).append (Bal.plain d _ (plain_nl ind lvl))).append (Bal.quote d k)).append (bal_sep d)).append
+        (ser_bal ind lvl d v)).append (serMembers_bal ind lvl d kvs)
       simpa [serMembers] using h
 end
 
 /-- the text of a dict is strictly inside its outer braces at every proper non-empty prefix -/
-theorem dumps_obj_balC (l : List (Str × JV)) : BalC 0 (dumps (.obj l)) := by
+theorem dumps_obj_balC (ind : Nat) (l : List (Str × JV)) : BalC 0 (dumps ind (.obj l)) := by
   unfold dumps
   cases l with
   | nil =>
@@ -302,25 +302,141 @@ theorem dumps_obj_balC (l : List (Str × JV)) : BalC 0 (dumps (.obj l)) := by
     obtain ⟨k, v⟩ := kv
     rw [ser_obj_cons]
     exact BalC.wrap 0 '{' '}' (Or.inl rfl) (Or.inl rfl) _
-      (((((Bal.plain _ _ (plain_nl _)).append (Bal.quote _ k)).append (bal_sep _)).append (ser_bal 1 1 v)).append
-        (serMembers_bal 1 1 kvs) |>.append (Bal.plain _ _ (plain_nl _)))
+      (((((Bal.plain _ _ (plain_nl _ _)).append (Bal.quote _ k)).append (bal_sep _)).append (ser_bal ind 1 1 v)).append
+        (serMembers_bal ind 1 1 kvs) |>.append (Bal.plain _ _ (plain_nl _ _)))
 
 /-- **truncation**: every proper non-empty prefix of the JSON text of a dict ends inside a bracket
     (or inside a string inside a bracket) — it is not a complete JSON document -/
-theorem truncated_dict_open (l : List (Str × JV)) (p : Str) (hp : p <+: dumps (.obj l)) (hne : p ≠ [])
-    (hproper : p ≠ dumps (.obj l)) : openAtEnd p = true := by
-  have h := (dumps_obj_balC l).2 p hp hne hproper
+theorem truncated_dict_open (ind : Nat) (l : List (Str × JV)) (p : Str) (hp : p <+: dumps ind (.obj l)) (hne : p ≠ [])
+    (hproper : p ≠ dumps ind (.obj l)) : openAtEnd p = true := by
+  have h := (dumps_obj_balC ind l).2 p hp hne hproper
   unfold openAtEnd
   have : scan sc0 p = scan (st 0) p := rfl
   simp only [this, Bool.or_eq_true, decide_eq_true_eq]
   exact Or.inl (by omega)
 
 /-- … while the complete text is closed -/
-theorem complete_dict_closed (l : List (Str × JV)) : openAtEnd (dumps (.obj l)) = false := by
-  have h := (dumps_obj_balC l).1.1
+theorem complete_dict_closed (ind : Nat) (l : List (Str × JV)) : openAtEnd (dumps ind (.obj l)) = false := by
+  have h := (dumps_obj_balC ind l).1.1
   unfold openAtEnd
-  have : scan sc0 (dumps (.obj l)) = scan (st 0) (dumps (.obj l)) := rfl
+  have : scan sc0 (dumps ind (.obj l)) = scan (st 0) (dumps ind (.obj l)) := rfl
   rw [this, h]
   rfl
+
+-- ---------------------------------------------------------------- the written text is ASCII
+
+/-- with `ensure_ascii` every character of the written text is below 128: a byte prefix of the
+    file is a character prefix of the text -/
+def Ascii (t : Str) : Prop := ∀ c ∈ t, c.toNat < 128
+
+theorem Ascii.append {a b : Str} (ha : Ascii a) (hb : Ascii b) : Ascii (a ++ b) := by
+  intro c hc
+  rcases List.mem_append.mp hc with h | h
+  · exact ha c h
+  · exact hb c h
+
+theorem Ascii.cons {c : Char} {t : Str} (hc : c.toNat < 128) (ht : Ascii t) : Ascii (c :: t) := by
+  intro x hx
+  rcases List.mem_cons.mp hx with rfl | h
+  · exact hc
+  · exact ht x h
+
+theorem ascii_nil : Ascii [] := by intro c hc; simp at hc
+theorem ascii_sep : Ascii [':', ' '] := by intro c hc; simp at hc; rcases hc with rfl | rfl <;> decide
+
+theorem hexDigit_ascii : ∀ k, k < 16 → (hexDigit k).toNat < 128 := by decide
+
+theorem ascii_uEsc (n : Nat) : Ascii (uEsc n) := by
+  intro c hc
+  simp only [uEsc, hex4, List.mem_cons, List.not_mem_nil, or_false] at hc
+  rcases hc with rfl | rfl | rfl | rfl | rfl | rfl
+  · decide
+  · decide
+  all_goals exact hexDigit_ascii _ (Nat.mod_lt _ (by decide))
+
+theorem ascii_escChar (c : Char) : Ascii (escChar c) := by
+  unfold escChar
+  split
+  · intro x hx; simp at hx; rcases hx with rfl | rfl <;> decide
+  split
+  · intro x hx; simp at hx; rcases hx with rfl | rfl <;> decide
+  split
+  · intro x hx; simp at hx; rcases hx with rfl | rfl <;> decide
+  split
+  · intro x hx; simp at hx; rcases hx with rfl | rfl <;> decide
+  split
+  · intro x hx; simp at hx; rcases hx with rfl | rfl <;> decide
+  split
+  · intro x hx; simp at hx; rcases hx with rfl | rfl <;> decide
+  split
+  · intro x hx; simp at hx; rcases hx with rfl | rfl <;> decide
+  simp only
+  split
+  · rename_i h
+    intro x hx
+    simp at hx
+    subst hx
+    omega
+  split
+  · exact ascii_uEsc _
+  · exact (ascii_uEsc _).append (ascii_uEsc _)
+
+theorem ascii_quote (s : Str) : Ascii (quote s) := by
+  unfold quote
+  refine Ascii.append (Ascii.cons (by decide) ?_) (Ascii.cons (by decide) ascii_nil)
+  induction s with
+  | nil => exact ascii_nil
+  | cons c cs ih => rw [List.flatMap_cons]; exact (ascii_escChar c).append ih
+
+theorem ascii_nl (ind lvl : Nat) : Ascii (nl ind lvl) := by
+  intro c hc
+  simp only [nl, List.mem_cons, List.mem_replicate] at hc
+  rcases hc with rfl | ⟨-, rfl⟩ <;> decide
+
+theorem ascii_repr (k : Int) : Ascii k.repr.toList := by
+  intro c hc
+  rcases CF.Txt.chars_of_repr k c hc with h | rfl
+  · have : c.toNat ≤ 57 := by
+      have := h
+      simp only [Char.isDigit, Bool.and_eq_true, decide_eq_true_eq] at this
+      have h2 := this.2
+      exact Nat.le_of_lt_succ (by
+        have : c.val ≤ 57 := h2
+        exact Nat.lt_succ_of_le this)
+    omega
+  · decide
+
+mutual
+  theorem ser_ascii (ind lvl : Nat) : (v : JV) → Ascii (ser ind lvl v)
+    | .str s => by rw [ser]; exact ascii_quote s
+    | .int k => by rw [ser]; exact ascii_repr k
+    | .arr [] => by rw [ser]; intro c hc; simp at hc; rcases hc with rfl | rfl <;> decide
+    | .arr (x :: xs) => by
+      rw [ser_arr_cons]
+      exact Ascii.append (Ascii.cons (by decide)
+        ((((ascii_nl _ _).append (ser_ascii ind (lvl + 1) x)).append (serItems_ascii ind (lvl + 1) xs)).append (ascii_nl _ _)))
+        (Ascii.cons (by decide) ascii_nil)
+    | .obj [] => by rw [ser]; intro c hc; simp at hc; rcases hc with rfl | rfl <;> decide
+    | .obj ((k, v) :: kvs) => by
+      rw [ser_obj_cons]
+      exact Ascii.append (Ascii.cons (by decide)
+        ((((((ascii_nl _ _).append (ascii_quote k)).append ascii_sep).append
+          (ser_ascii ind (lvl + 1) v)).append (serMembers_ascii ind (lvl + 1) kvs)).append (ascii_nl _ _)))
+        (Ascii.cons (by decide) ascii_nil)
+  theorem serItems_ascii (ind lvl : Nat) : (l : List JV) → Ascii (serItems ind lvl l)
+    | [] => by rw [serItems]; exact ascii_nil
+    | x :: xs => by
+      have h := Ascii.cons (c := ',') (by decide) (((ascii_nl ind lvl).append (ser_ascii ind lvl x)).append (serItems_ascii ind lvl xs))
+      simpa [serItems] using h
+  theorem serMembers_ascii (ind lvl : Nat) : (l : List (Str × JV)) → Ascii (serMembers ind lvl l)
+    | [] => by rw [serMembers]; exact ascii_nil
+    | (k, v) :: kvs => by
+      have h := Ascii.cons (c := ',') (by decide) (((((ascii_nl ind lvl).append (ascii_quote k)).append
+        ascii_sep).append (ser_ascii ind lvl v)).append (serMembers_ascii ind lvl kvs))
+      simpa [serMembers] using h
+end
+
+/-- the whole written text is ASCII, whatever the vertex names -/
+theorem dumps_ascii (ind : Nat) (v : JV) : Ascii (dumps ind v) := ser_ascii ind 0 v
 
 end CF.JsonText
